@@ -240,15 +240,32 @@ type obs struct {
 }
 
 func runRecv(side streams.Side, frames []streams.Frame, chunk int) (out []obs, err error) {
+	return runRecvVariant(side, frames, chunk, "")
+}
+
+// runRecvVariant: "" = the reader's state says "extended"; "not-extended" = it does not (the
+// header check then refuses every RSV bit, but the message state attached to the reader still
+// follows the messages - it starts out as a writer sharing it left it, "compressed");
+// "not-extended-nocheck" = the same with the header check switched off, so that the extension
+// is the only one looking at RSV1.
+func runRecvVariant(side streams.Side, frames []streams.Frame, chunk int, variant string) (out []obs, err error) {
 	data, _ := streams.Wire(frames)
 	src := env.NewSrc(data)
 	src.Policy = env.FixedChunk(chunk)
 	var ms wsflate.MessageState
+	if variant != "" && len(frames) > 0 && !refmodel.IsControl(frames[0].H.Op) {
+		// (what the state says before the first data message has arrived is the writer's business)
+		ms.SetCompressed(true)
+	}
 	// the message state sits alone, before or behind an unrelated extension that leaves the
 	// header alone (by stream: the three placements rotate with the number of frames and chunk)
 	identity := wsutil.RecvExtensionFunc(func(h ws.Header) (ws.Header, error) { return h, nil })
 	exts := [][]wsutil.RecvExtension{{&ms}, {&ms, identity}, {identity, &ms}}[(len(frames)+chunk)%3]
 	rd := &wsutil.Reader{Source: src, State: drivers.State(side) | ws.StateExtended, Extensions: exts}
+	if variant != "" {
+		rd.State = drivers.State(side)
+		rd.SkipHeaderCheck = variant == "not-extended-nocheck"
+	}
 	rd.OnIntermediate = func(h ws.Header, r io.Reader) error {
 		p, e := io.ReadAll(r)
 		out = append(out, obs{"ctl", h, ms.IsCompressed(), p})
@@ -583,6 +600,19 @@ func main() {
 								out, err := runRecv(side, frames, chunk)
 								if f := judgeRecv(frames, out, err); f != nil {
 									return f
+								}
+								// the same stream through a reader whose state does not say "extended": with
+								// the header check on this is decidable for streams without RSV bits, with the
+								// check off for all of them (the extension alone rules on RSV1)
+								for _, variant := range []string{"not-extended", "not-extended-nocheck"} {
+									if variant == "not-extended" && code != 0 {
+										continue
+									}
+									vout, verr := runRecvVariant(side, frames, chunk, variant)
+									if f := judgeRecv(frames, vout, verr); f != nil {
+										f.Sig += ":reader-state-" + variant
+										return f
+									}
 								}
 								if err == io.EOF {
 									t.Outcome("delivered")
